@@ -159,6 +159,7 @@ private:
         (traits::vector_arity==2 && components==proxy.suv2.components))) //beware of aliasing
       return(WrapperType::apply(*this,static_cast<SU_vector>(proxy))); //evaluate via a temporary
     //check whether sizes match
+    const SU_vector* stolen=nullptr; //operand whose owned storage is taken over, if any
     if(!traits::equal_target_size && this->size!=proxy.suv1.size){
       if(isinit_d) //can't resize
         throw std::runtime_error("Non-matching dimensions in assignment to SU_vector with external storage");
@@ -174,16 +175,20 @@ private:
         ptr_offset=proxy.suv1.ptr_offset;
         isinit=proxy.suv1.isinit;
         isinit_d=proxy.suv1.isinit_d;
-        if(isinit)
+        if(isinit){
           const_cast<SU_vector&>(proxy.suv1).isinit=false; //complete the theft
+          stolen=&proxy.suv1;
+        }
       }
       else if(proxy.mayStealArg2()){ //if the operation is component-wise and suv2 is an rvalue
         components=proxy.suv2.components; //take suv2's backing storage
         ptr_offset=proxy.suv2.ptr_offset;
         isinit=proxy.suv2.isinit;
         isinit_d=proxy.suv2.isinit_d;
-        if(isinit)
+        if(isinit){
           const_cast<SU_vector&>(proxy.suv2).isinit=false; //complete the theft
+          stolen=&proxy.suv2;
+        }
       }
       else{
         alloc_aligned(dim,size,components,ptr_offset);
@@ -192,6 +197,12 @@ private:
     }
     //evaluate in place
     proxy.compute(detail::vector_wrapper<WrapperType>{dim,components});
+    if(stolen){ //the operand no longer has storage: leave it empty, as after a move
+      SU_vector& source=const_cast<SU_vector&>(*stolen);
+      source.dim=0;
+      source.size=0;
+      source.components=nullptr;
+    }
     return(*this);
   }
   
@@ -317,9 +328,18 @@ public:
     else
       alloc_aligned(dim,size,components,ptr_offset);
     
-    if(components==proxy.suv1.components && proxy.suv1.isinit)
+    bool stolen=false;
+    if(components==proxy.suv1.components && proxy.suv1.isinit){
       const_cast<SU_vector&>(proxy.suv1).isinit=false; //complete the theft
+      stolen=true;
+    }
     proxy.compute(detail::vector_wrapper<detail::AssignWrapper>{dim,components});
+    if(stolen){ //the operand no longer has storage: leave it empty, as after a move
+      SU_vector& source=const_cast<SU_vector&>(proxy.suv1);
+      source.dim=0;
+      source.size=0;
+      source.components=nullptr;
+    }
   }
 
   ///\brief Construct an SU_vector from a GSL matrix
